@@ -59,6 +59,7 @@ func main() {
 		preempt   = flag.Int("preempt", 0, "preemption bound")
 		maxSteps  = flag.Int64("maxsteps", 400000, "instruction budget per path")
 		maxPaths  = flag.Int64("maxpaths", 200000, "path budget per harness")
+		maxDepth  = flag.Int("maxdepth", 400, "call depth budget")
 		out       = flag.String("out", "", "write JSON report here")
 		solver    = flag.String("solver", "z3", "primary solver: z3, z3-new, cvc5")
 		xcheck    = flag.String("xcheck", "", "comma-separated cross-check solvers")
@@ -240,7 +241,7 @@ func main() {
 			defer wg.Done()
 			defer func() { <-sem }()
 			th := time.Now()
-			ex := &explorer{i: i, harness: h, name: h.Name(), maxSteps: *maxSteps, maxPaths: *maxPaths,
+			ex := &explorer{i: i, harness: h, name: h.Name(), maxSteps: *maxSteps, maxPaths: *maxPaths, maxDepth: *maxDepth,
 				maxPreempt: *preempt, trackRaces: *races, xsolvers: xs, xrate: *xrate, modelsWanted: *samples}
 			if err := ex.explore(perH, *solver, *timeoutMs); err != nil {
 				fatal(err)
